@@ -3,6 +3,7 @@ mod absmap;
 mod attrs;
 mod builders;
 mod convert;
+mod corners;
 mod decode;
 mod dispatch;
 mod dump;
@@ -32,6 +33,7 @@ fn main() {
         "builders-replay" => builders::main(rest),
         "attrs-replay" => attrs::main(rest),
         "dump-results" => dump::main(rest),
+        "corner-replay" => corners::main(rest),
         "bpm-replay" => session::bpm_main(rest),
         "session-record" => session::record_main(rest),
         "threads-record" => session::threads_main(rest),
